@@ -17,7 +17,7 @@ import z3
 
 from . import logic as L
 from .extract import function_of_object, get_function, loops_of, loop_fingerprint, real_module
-from .values import (SBytes, SClosure, SIter, SIterator, SList, SMethod, SObj, SOpaque, SymError)
+from .values import (SBytes, SClosure, SIter, SIterator, SList, SMethod, SObj, SOpaque, SymError, SYields)
 
 
 class PathEnd(Exception):
@@ -311,6 +311,7 @@ class Interp:
         self.current_contract = None
         self.inlined = set()
         self.contract_calls = set()
+        self.trace = []  # (contract short name, bound args) of calls to contracts marked `traced`
         from . import summaries
 
         self.summ = summaries
@@ -691,6 +692,11 @@ class Interp:
                 obj.arr = z3.Array(ctx.fresh_name("hv"), z3.IntSort(), obj.arr.sort().range())
                 obj.n = ctx.fresh_int("hv_len")
                 ctx.assume(obj.n >= 0)
+            elif kind == "yields":
+                obj.arr = z3.Array(ctx.fresh_name("ys"), z3.IntSort(), z3.IntSort())
+                obj.n = ctx.fresh_int("ys_len")
+                ctx.assume(obj.n >= 0)
+                obj.mem = z3.Array(ctx.fresh_name("ymem"), z3.IntSort(), z3.BoolSort())
             else:
                 raise SymError("loop %s: cannot havoc %s" % (tag, kind))
         havocked_heap = set((k, id(o), f) for k, o, f in heap)
@@ -746,6 +752,8 @@ class Interp:
         if self.ctx.writes is not None:
             if isinstance(obj, SObj):
                 self.ctx.writes.append(("attr", id(obj), fld))
+            elif isinstance(obj, SYields):
+                self.ctx.writes.append(("yields", id(obj), None))
             elif isinstance(obj, SList):
                 self.ctx.writes.append(("slist", id(obj), None))
             else:
@@ -790,6 +798,23 @@ class Interp:
                     heap.append(("slist", sl, None))
             elif isinstance(n, ast.AugAssign) and isinstance(n.target, ast.Name):
                 pass
+        if any(isinstance(n, (ast.Yield, ast.YieldFrom)) for n in _walk_stmts(loop.body)):
+            f = fr
+            while f is not None and (f.fi is None or not f.fi.is_generator):
+                f = f.outer
+            if f is None:
+                raise SymError("yield outside generator")
+            if not isinstance(f.yields, SYields):
+                ys = f.yields
+                arr = z3.K(z3.IntSort(), z3.IntVal(0))
+                mem = z3.K(z3.IntSort(), z3.BoolVal(False))
+                for i, x in enumerate(ys):
+                    if not isinstance(x, (int, z3.ExprRef)):
+                        raise SymError("yield ghost: only integer-valued yields can be tracked in a cut loop")
+                    arr = z3.Store(arr, i, L.to_z3(x))
+                    mem = z3.Store(mem, L.to_z3(x), z3.BoolVal(True))
+                f.yields = SYields(arr, len(ys), mem)
+            heap.append(("yields", f.yields, None))
         for path in spec.modifies:
             e = ast.parse(path, mode="eval").body
             if isinstance(e, ast.Attribute):
@@ -1162,10 +1187,12 @@ class Interp:
             f = f.outer
             if f is None:
                 raise SymError("yield outside generator")
-        if isinstance(f.yields, SList):
+        if isinstance(f.yields, SYields):
             self.note_write(f.yields)
-            f.yields.arr = z3.Store(f.yields.arr, L.to_z3(f.yields.n), L.to_z3(L.num(v)))
+            vv = L.to_z3(L.num(v))
+            f.yields.arr = z3.Store(f.yields.arr, L.to_z3(f.yields.n), vv)
             f.yields.n = f.yields.n + 1
+            f.yields.mem = z3.Store(f.yields.mem, vv, z3.BoolVal(True))
         else:
             f.yields.append(v)
         return None
